@@ -1,6 +1,7 @@
 (* C15 - lemmas about the hook semantics (Model/Hooks.v) and the sweep window (Model/Sweep.v). *)
 From Coq Require Import String ZifyBool.
 From Comdex Require Import Lib.Base Lib.Atomic Model.HookLang Gen.HookTable Model.Hooks Model.Sweep.
+From Comdex Require Model.Liquidation.
 Local Open Scope Z_scope.
 
 (* induction principle for the nested inductive [hook] *)
@@ -147,38 +148,53 @@ End SemFacts.
 Lemma wrap64_small z : -9223372036854775808 <= z <= int_max -> wrap64 z = z.
 Proof. unfold wrap64, int_max. intro H. rewrite Z.mod_small by lia. lia. Qed.
 
-Lemma slice_bounds_ok len off batch :
-  0 <= len -> off + batch <= int_max ->
-  let '(s, e) := slice_bounds len off batch in 0 <= s <= e /\ e <= len.
+Lemma wrap64_over z : int_max < z <= int_max + int_max + 1 -> wrap64 z = z - 18446744073709551616.
 Proof.
-  intros Hl Hov. unfold slice_bounds.
+  unfold wrap64, int_max. intro H.
+  replace (z + 9223372036854775808) with ((z - 9223372036854775808) + 1 * 18446744073709551616) by lia.
+  rewrite Z_mod_plus_full. rewrite Z.mod_small by lia. lia.
+Qed.
+
+(* the conversion int(u) is the identity below 2^63 and u - 2^64 (negative) from 2^63 on *)
+Lemma int_of_uint64_small u : 0 <= u <= int_max -> int_of_uint64 u = u.
+Proof. intro H. unfold int_of_uint64. apply wrap64_small. unfold int_max in *. lia. Qed.
+Lemma int_of_uint64_big u : int_max < u <= uint64_max -> int_of_uint64 u = u - 18446744073709551616 /\ int_of_uint64 u < 0.
+Proof. intro H. unfold int_of_uint64. rewrite wrap64_over by (unfold int_max, uint64_max in *; lia). unfold uint64_max in H. lia. Qed.
+
+(* the repaired helper: 0 <= start <= end <= sliceLen for EVERY offset and EVERY batch size (the
+   wrapped  offset + batchSize  included) *)
+Lemma slice_bounds_ok len off batch :
+  0 <= len -> let '(s, e) := slice_bounds len off batch in 0 <= s <= e /\ e <= len.
+Proof.
+  intros Hl. unfold slice_bounds.
   destruct (off >=? len) eqn:E1; cbn [orb]; [lia|].
   destruct (off <? 0) eqn:E2; cbn [orb]; [lia|].
   destruct (batch <? 0) eqn:E3; cbn [orb]; [lia|].
-  rewrite wrap64_small by (unfold int_max in *; lia).
-  destruct (off + batch >=? len) eqn:E4; lia.
+  set (w := wrap64 (off + batch)).
+  destruct (w >=? len) eqn:E4; cbn [orb]; [lia|].
+  destruct (w <? off) eqn:E5; lia.
 Qed.
 
 Lemma sweep_window_ok len off batch :
-  0 <= len -> 0 <= batch <= int_max -> off + batch <= int_max ->
-  let '(s, e) := sweep_window len off batch in 0 <= s <= e /\ e <= len.
+  0 <= len -> let '(s, e) := sweep_window len off batch in 0 <= s <= e /\ e <= len.
 Proof.
-  intros Hl Hb Hov. unfold sweep_window.
-  pose proof (slice_bounds_ok len off batch Hl Hov) as H1.
+  intros Hl. unfold sweep_window.
+  pose proof (slice_bounds_ok len off batch Hl) as H1.
   destruct (slice_bounds len off batch) as [s e].
   destruct (s =? e).
-  - apply slice_bounds_ok; [exact Hl|lia].
+  - apply slice_bounds_ok. exact Hl.
   - exact H1.
 Qed.
 
 (* the slice expression of the sweep does not panic when the length the code uses is at most the
-   capacity of the sliced list - in particular when the counter equals the list length *)
+   capacity of the sliced list (reachable states: the counter equals the list length) - for every
+   offset and every batch size *)
 Lemma sweep_slice_no_panic {A} (zero : A) (l : list A) cap counter off batch :
-  0 <= counter <= cap -> zlen l <= cap -> 0 <= batch <= int_max -> off + batch <= int_max ->
+  0 <= counter <= cap -> zlen l <= cap ->
   exists items e, sweep_slice zero l cap counter off batch = Some (items, e) /\ 0 <= e <= counter.
 Proof.
-  intros Hc Hl Hb Hov. unfold sweep_slice.
-  pose proof (sweep_window_ok counter off batch (proj1 Hc) Hb Hov) as H.
+  intros Hc Hl. unfold sweep_slice.
+  pose proof (sweep_window_ok counter off batch (proj1 Hc)) as H.
   destruct (sweep_window counter off batch) as [s e]. unfold go_slice, go_slice_ok.
   replace (0 <=? s) with true by (symmetry; apply Z.leb_le; lia).
   replace (s <=? e) with true by (symmetry; apply Z.leb_le; lia).
@@ -187,15 +203,110 @@ Proof.
   cbn [andb]. eexists. exists e. split; [reflexivity|lia].
 Qed.
 
-Lemma kf_C15_2_sound cap counter off batch :
-  0 <= counter <= cap -> 0 <= batch <= int_max -> off + batch <= int_max -> kf_C15_2 cap counter off batch = false.
+(* from the stored uint64 values, through the caller's int() conversions: every stored offset and
+   every stored batch size (2^63 .. 2^64-1 included: they convert to negative ints) *)
+Lemma sweep_slice_stored_no_panic {A} (zero : A) (l : list A) cap counter_u off_u batch_u :
+  0 <= counter_u <= cap -> cap <= int_max -> zlen l <= cap ->
+  exists items e, sweep_slice_stored zero l cap counter_u off_u batch_u = Some (items, e) /\ 0 <= e <= counter_u.
 Proof.
-  intros Hc Hb Hov. unfold kf_C15_2.
-  pose proof (sweep_window_ok counter off batch (proj1 Hc) Hb Hov) as H.
-  destruct (sweep_window counter off batch) as [s e]. unfold go_slice_ok.
+  intros Hc Hcap Hl. unfold sweep_slice_stored. rewrite (int_of_uint64_small counter_u) by lia.
+  apply sweep_slice_no_panic; assumption.
+Qed.
+
+(* the predictor is exactly "the modelled slice expression returns None" *)
+Lemma slice_panics_spec {A} (zero : A) (l : list A) cap counter off batch : zlen l <= cap ->
+  (slice_panics cap counter off batch = false <-> exists r, sweep_slice zero l cap counter off batch = Some r).
+Proof.
+  intros Hl. unfold slice_panics, sweep_slice, go_slice.
+  destruct (sweep_window counter off batch) as [s e].
+  replace (zlen l <=? cap) with true by (symmetry; apply Z.leb_le; exact Hl).
+  destruct (go_slice_ok cap s e); cbn; split; intro H; try reflexivity; try discriminate.
+  - eexists; reflexivity.
+  - destruct H as [r H]. discriminate.
+Qed.
+
+(* when does the slice expression panic: exactly when the end of the window is beyond the capacity *)
+Lemma slice_panics_iff cap counter off batch : 0 <= counter ->
+  (slice_panics cap counter off batch = true <-> cap < snd (sweep_window counter off batch)).
+Proof.
+  intros Hc. unfold slice_panics.
+  pose proof (sweep_window_ok counter off batch Hc) as H.
+  destruct (sweep_window counter off batch) as [s e]. cbn [snd]. unfold go_slice_ok.
   replace (0 <=? s) with true by (symmetry; apply Z.leb_le; lia).
   replace (s <=? e) with true by (symmetry; apply Z.leb_le; lia).
-  replace (e <=? cap) with true by (symmetry; apply Z.leb_le; lia). reflexivity.
+  cbn [andb]. destruct (e <=? cap) eqn:E; cbn; split; intro H1; try discriminate; try reflexivity; lia.
+Qed.
+
+(* ... hence only when the counter exceeds the capacity: never in a reachable state *)
+Lemma slice_panics_only_if cap counter off batch : 0 <= counter ->
+  slice_panics cap counter off batch = true -> cap < counter.
+Proof.
+  intros Hc H. apply slice_panics_iff in H; [|exact Hc].
+  pose proof (sweep_window_ok counter off batch Hc) as Hw.
+  destruct (sweep_window counter off batch) as [s e]. cbn [snd] in H. lia.
+Qed.
+
+(* a batch size that covers the whole list (the default 200 against a few vaults): the window
+   always ends at the counter *)
+Lemma sweep_window_full_batch counter off batch : 0 <= counter <= batch -> batch <= int_max ->
+  snd (sweep_window counter off batch) = counter.
+Proof.
+  intros Hc Hb.
+  assert (Hz : snd (slice_bounds counter 0 batch) = counter).
+  { unfold slice_bounds. destruct (0 >=? counter) eqn:E1; cbn [orb]; [reflexivity|].
+    replace (0 <? 0) with false by reflexivity. replace (batch <? 0) with false by (symmetry; apply Z.ltb_ge; lia).
+    cbn [orb]. rewrite wrap64_small by (unfold int_max in *; lia). cbn [Z.add].
+    replace (batch >=? counter) with true by (symmetry; apply Z.geb_le; lia). reflexivity. }
+  unfold sweep_window. destruct (slice_bounds counter off batch) as [s e] eqn:Es.
+  destruct (s =? e) eqn:Ee; [exact Hz|]. cbn [snd].
+  unfold slice_bounds in Es.
+  destruct (off >=? counter) eqn:E1; cbn [orb] in Es; [inversion Es; subst; lia|].
+  destruct (off <? 0) eqn:E2; cbn [orb] in Es; [inversion Es; subst; lia|].
+  destruct (batch <? 0) eqn:E3; cbn [orb] in Es; [inversion Es; subst; lia|].
+  destruct (Z_le_gt_dec (off + batch) int_max) as [Hs|Hs].
+  - rewrite wrap64_small in Es by (unfold int_max in *; lia).
+    replace (off + batch >=? counter) with true in Es by (symmetry; apply Z.geb_le; lia).
+    cbn [orb] in Es. inversion Es. reflexivity.
+  - rewrite wrap64_over in Es by (unfold int_max in *; lia).
+    replace (off + batch - 18446744073709551616 <? off) with true in Es by (symmetry; apply Z.ltb_lt; unfold int_max in *; lia).
+    rewrite orb_true_r in Es. inversion Es. reflexivity.
+Qed.
+
+Lemma slice_panics_full_batch cap counter off batch : 0 <= counter <= batch -> batch <= int_max ->
+  (slice_panics cap counter off batch = true <-> cap < counter).
+Proof.
+  intros Hc Hb. rewrite slice_panics_iff by lia. rewrite sweep_window_full_batch by assumption. reflexivity.
+Qed.
+
+(* The repaired helper computes, on every int input, what the helper computes over unbounded
+   integers (the window C09's model Model/Liquidation.v uses): the int64 wrap-around no longer
+   shows.  Before fix C15-F2 this failed for off >= 1, off + batch > int_max. *)
+Lemma slice_bounds_unbounded len off batch :
+  len <= int_max -> off <= int_max -> batch <= int_max ->
+  slice_bounds len off batch = Comdex.Model.Liquidation.slice_bounds len off batch.
+Proof.
+  intros Hl Ho Hb. unfold slice_bounds, Comdex.Model.Liquidation.slice_bounds.
+  destruct (off >=? len) eqn:E1; cbn [orb]; [reflexivity|].
+  destruct (off <? 0) eqn:E2; cbn [orb]; [reflexivity|].
+  destruct (batch <? 0) eqn:E3; cbn [orb]; [reflexivity|].
+  destruct (Z_le_gt_dec (off + batch) int_max) as [Hs|Hs].
+  - rewrite wrap64_small by (unfold int_max in *; lia).
+    replace (off + batch <? off) with false by (symmetry; apply Z.ltb_ge; lia).
+    rewrite orb_false_r. reflexivity.
+  - rewrite wrap64_over by (unfold int_max in *; lia).
+    replace (off + batch - 18446744073709551616 <? off) with true by (symmetry; apply Z.ltb_lt; unfold int_max in *; lia).
+    rewrite orb_true_r.
+    replace (off + batch >=? len) with true by (symmetry; apply Z.geb_le; lia). reflexivity.
+Qed.
+
+Lemma sweep_window_unbounded len off batch :
+  len <= int_max -> off <= int_max -> batch <= int_max ->
+  sweep_window len off batch = Comdex.Model.Liquidation.sweep_window len off batch.
+Proof.
+  intros Hl Ho Hb. unfold sweep_window, Comdex.Model.Liquidation.sweep_window.
+  rewrite (slice_bounds_unbounded len off batch Hl Ho Hb).
+  rewrite (slice_bounds_unbounded len 0 batch Hl) by (unfold int_max; lia || assumption).
+  destruct (Comdex.Model.Liquidation.slice_bounds len off batch) as [s e]. reflexivity.
 Qed.
 
 (* range index: x[i] for i < len x *)
@@ -225,7 +336,7 @@ Proof. intro H. unfold apply. rewrite H. reflexivity. Qed.
 
 (* table facts by computation *)
 Lemma units_wrapped_table :
-  forallb (fun u => unit_known_unwrapped u || unit_is_wrapped hook_table u) hook_units = true.
+  forallb (fun u => unit_is_wrapped hook_table u) hook_units = true.
 Proof. vm_compute. reflexivity. Qed.
 
 Lemma unwrapped_leaves_table : forallb unwrapped_leaf_ok (all_root_leaves hook_table) = true.
